@@ -1268,3 +1268,24 @@ Lemma swap_keeps_stream_data_refuted_lemma :
     let w2 := fst (pg_step w1 (PoSwap false l 3)) in
     snd (pg_step w1 (PoSwap false l 3)) = PrOk /\ pg_stream_data (fst w2) 3 = None.
 Proof. exists pg_ex_world, 6. vm_compute. repeat split; reflexivity. Qed.
+
+(* FULL STATEMENT that fails: "replaceObject with an indirect handle raises and changes nothing".  The one indirect form
+   QPDF::replaceObject admits - the stream that already is the object - is accepted and destroys the stream: the cached
+   object is moved into itself and ends up as a reference to itself. *)
+Lemma replace_stream_by_itself_refuted_lemma :
+  exists w, pg_stream_data (fst w) 5 = Some [65] /\
+    snd (pg_step w (PoReplaceInd false 5 (PhObj false 5))) = PrOk /\
+    pg_stream_data (fst (fst (pg_step w (PoReplaceInd false 5 (PhObj false 5))))) 5 = None /\
+    pg_lookup (pd_store (fst (fst (pg_step w (PoReplaceInd false 5 (PhObj false 5)))))) 5 = Some (PcObj (PvRef 5)).
+Proof. exists pg_ex_world. vm_compute. repeat split; reflexivity. Qed.
+
+(* every other indirect handle of the same document (dictionary, array, null object, stream of another object) is rejected
+   and nothing changes *)
+Lemma replace_indirect_rejected_lemma : forall w d i j,
+  pg_lookup (pd_store (pg_get w d)) j <> None ->
+  pg_is_stream (pd_store (pg_get w d)) (PvRef j) && (j =? i) = false ->
+  pg_step w (PoReplaceInd d i (PhObj d j)) = (w, PrErr PeLogic).
+Proof.
+  intros w d i j Hex Hs. cbn [pg_step]. unfold pg_norm.
+  destruct (pg_lookup (pd_store (pg_get w d)) j); [|congruence]. rewrite Hs. reflexivity.
+Qed.
